@@ -539,13 +539,13 @@ def main(tier: str) -> int:
     ])
     rng = random.Random(run.seed * 7919 + 15)
     thorough = tier != "quick"
-    dcases = gen_dens_cases(rng, 190 if not thorough else 1900)
+    dcases = gen_dens_cases(rng, 152 if not thorough else 1900)
     corpus = C.VERIF / "corpus" / "C15.json"
     if corpus.exists():
         dcases = json.loads(corpus.read_text()) + dcases
     try:
         dres = run_parallel(IMPL14, "dens", [{"cls": c["cls"], "params": c["params"], "calls": c["calls"]} for c in dcases])
-        num_cases = [c for c in dcases if c.get("grid")] + [c for c in dcases if not c.get("grid")][:(40 if not thorough else 400)]
+        num_cases = [c for c in dcases if c.get("grid")] + [c for c in dcases if not c.get("grid")][:(30 if not thorough else 400)]
         nres = run_parallel(IMPL15, "num", [{"cls": c["cls"], "params": c["params"], "far": far_of(c)} for c in num_cases])
     except Exception as exc:  # noqa
         run.violation("harness-cannot-run-implementation",
@@ -585,7 +585,7 @@ def main(tier: str) -> int:
         return run.finish()
     mism, unresolved, rounds = corr
     # ---- tie (b): draws
-    draw_cases = gen_draw_cases(rng, 57 if not thorough else 570)
+    draw_cases = gen_draw_cases(rng, 38 if not thorough else 570)
     dr = c14.run_impl(draw_cases)
     c14.PID = "C15d"
     dcorr = c14.correspondence(run, draw_cases, dr, max_rounds=12)
